@@ -16,6 +16,7 @@ EXPLANATION = (
     "R08.3 the eager tensor-contraction rules choose their einsum backend from the table whose backends implement the semiring of "
     "the rule's own pattern; R08.4 apply_optimizer runs unfold then optimize, the latter layered over the caller's interpretation; "
     "R08.5 unit elimination (R02.1). NOT decided: greedy-path bookkeeping, alignment of named dimensions, idempotence of normalize."
+    ' Added since: R08.6 push-down guard; R08.7 same-op branch; R08.8 scope extrusion under a freshness test; R08.9 the (logaddexp, add) kernels are NaN-free and exact at -inf (special-value abstract interpretation); R08.10 operand multiplicity; R08.11 absent reduced variables in tensor kernels; R08.12 exact occurrence counts.'
 )
 ASSUMPTIONS = ["funsorlint/axioms.py", "op tables truthful (C15)", "opt_einsum.paths.greedy returns a valid pairwise contraction path"]
 RULE_TEXT = "one obligation per (site, op) pair, per guarded rewrite, per backend-selecting rule"
